@@ -68,6 +68,7 @@ var (
 	errDial    = errors.New("dial failed")
 	errReject  = errors.New("response rejected")
 	errGetBody = errors.New("GetBody failed")
+	errWrapEOF = fmt.Errorf("transport wrapper: %w", io.EOF)
 )
 
 type clSeen struct {
@@ -187,6 +188,11 @@ func runClient(t *byteTable, b *clBeh, seg func(n int) []int) (o clObs) {
 				rd.end = errBoom
 			case "errctx":
 				rd.end = context.DeadlineExceeded
+			case "errwrapeof":
+				rd.end = errWrapEOF
+			case "cancel_eof":
+				rd.end = io.EOF
+				rd.onEnd = cancel
 			case "cancel":
 				rd.end = context.Canceled
 				rd.onEnd = cancel
@@ -239,8 +245,10 @@ func errClassOK(err error, class string) bool {
 	case "transport_ctx", "errctx":
 		var ce *sse.ConnectionError
 		return errors.As(err, &ce) && errors.Is(err, context.DeadlineExceeded)
+	case "wrapeof":
+		return errors.Is(err, errWrapEOF)
 	case "eof":
-		return errors.Is(err, io.EOF) && !errors.Is(err, sse.ErrUnexpectedEOF)
+		return errors.Is(err, io.EOF) && !errors.Is(err, sse.ErrUnexpectedEOF) && !errors.Is(err, errWrapEOF)
 	case "unexpected_eof":
 		return errors.Is(err, sse.ErrUnexpectedEOF)
 	case "boom":
@@ -301,6 +309,9 @@ func checkClient(res *Result, t *byteTable, b *clBeh, o clObs, f clFocus, segNam
 				ok = errors.Is(o.err, errGetBody)
 			case "exhausted":
 				ok = isCE && errClassOK(o.err, b.Result.Err)
+				if !ok && len(b.Script) > 0 && b.Script[len(b.Script)-1].End == "cancel_eof" {
+					ok = errors.Is(o.err, context.Canceled) // cancelled at the very end: either reason is acceptable
+				}
 			}
 			if !ok {
 				fail("client:result:"+b.Result.Kind+":"+b.Result.Err, "Connect returned %q, spec: %s %s", o.err, b.Result.Kind, b.Result.Err)
